@@ -102,14 +102,14 @@ def exporters(seed):
             [0x20, 1, 0xd, 0xb8] + [0] * 11 + [1]]
 
 
-def validate_trace(ctx, module, cfg, rows, files=None, chunk=400, parallel=8, timeout=1200):
+def validate_trace(ctx, module, cfg, rows, files=None, chunk=400, parallel=8, timeout=1200, stateless=False):
     """Validate ndjson rows (beginning with a 'reset' event, and with one at every history
     boundary) against a trace specification.  Rows are split at reset boundaries into chunks
     validated by parallel single-worker TLC runs.  Returns (accepted, first_rejected_row_index)."""
     import concurrent.futures
     chunks, cur, start = [], [], 0
     for i, r in enumerate(rows):
-        if r.get("ev") == "reset" and len(cur) >= chunk:
+        if (stateless or r.get("ev") == "reset") and len(cur) >= chunk:
             chunks.append((start, cur))
             cur, start = [], i
         cur.append(r)
